@@ -48,7 +48,7 @@ func init() {
 		*cell = structure{msg}
 		return iface{t: types.NewPointer(t), v: cell}
 	})
-	for _, n := range []string{"fmt.Printf", "fmt.Println", "fmt.Print", "fmt.Fprintf", "fmt.Fprintln", "fmt.Fprint", "log.Printf", "log.Println", "log.Print"} {
+	for _, n := range []string{"fmt.Printf", "fmt.Println", "fmt.Print", "log.Printf", "log.Println", "log.Print"} {
 		n := n
 		reg(n, func(fr *frame, args []value) value {
 			if strings.HasPrefix(n, "log.") {
@@ -57,7 +57,32 @@ func init() {
 			return tuple{0, iface{}}
 		})
 	}
-
+	// Fprint*: console output is dropped; any other writer (a buffer, a
+	// builder) really receives the formatted bytes through its Write method
+	fprint := func(fr *frame, w value, text value) value {
+		i := fr.i
+		it, ok := w.(iface)
+		if !ok || it.t == nil {
+			panic(i.rtPanic("invalid memory address or nil pointer dereference"))
+		}
+		if strings.HasSuffix(it.t.String(), "os.File") {
+			return tuple{0, iface{}}
+		}
+		m := i.findMethod(it.t, "Write")
+		if m == nil {
+			panic(unsupported{"fmt.Fprint to a writer without a Write method: " + it.t.String()})
+		}
+		return i.callFn(fr, m, it.v, strBytes(text))
+	}
+	reg("fmt.Fprintf", func(fr *frame, args []value) value {
+		return fprint(fr, args[0], fr.i.sprintf(fr, args[1], args[2].([]value)))
+	})
+	reg("fmt.Fprint", func(fr *frame, args []value) value {
+		return fprint(fr, args[0], fr.i.sprint(fr, args[1].([]value), false))
+	})
+	reg("fmt.Fprintln", func(fr *frame, args []value) value {
+		return fprint(fr, args[0], fr.i.sprint(fr, args[1].([]value), true))
+	})
 
 	for _, n := range []string{"log/slog.Error", "log/slog.Warn", "log/slog.Info", "log/slog.Debug",
 		"(*log/slog.Logger).Error", "(*log/slog.Logger).Warn", "(*log/slog.Logger).Info", "(*log/slog.Logger).Debug"} {
